@@ -27,6 +27,7 @@ ASSUMPTIONS = [
     "one property returns values of one kind (a column is homogeneous up to missing values); integers have magnitude < 2^53",
 ]
 TRUSTED = ["pandas"]
+NOT_THEOREMS = ['pandas DataFrame construction / null representation / copy semantics: observed']
 EXHAUSTIVE = {"quick": False, "thorough": False}
 NAME_POOL = ["alpha", "zeta", "code", "dat", "data2", "emptyy", "is_firstly", "nextt", "previouss", "custom", "custom_propertiez", "Value", "_hidden", "name"]
 PARENTS = [None, 0, None]  # K1 subclass of K0; K2 unrelated
